@@ -50,6 +50,7 @@ static int op_fe_prog(void) {
                     secp256k1_fe_storage_cmov(&sa, &sb, atoi(rest)); secp256k1_fe_from_storage(&st[sp-2], &sa); sp--; break; }
         case 'e': { secp256k1_fe a, b; if (sp < 2) return -1; a = st[sp-2]; b = st[sp-1];
                     secp256k1_fe_normalize_weak(&a); secp256k1_fe_normalize_weak(&b); out_int(secp256k1_fe_equal(&a, &b)); break; }
+        case 'E': if (sp < 2) return -1; out_int(secp256k1_fe_equal(&st[sp-2], &st[sp-1])); break;   /* raw: contract a magnitude <= 1, b <= 31 */
         case 'x': { secp256k1_fe a, b; int r; if (sp < 2) return -1; a = st[sp-2]; b = st[sp-1];
                     secp256k1_fe_normalize(&a); secp256k1_fe_normalize(&b); r = secp256k1_fe_cmp_var(&a, &b);
                     out_int(r < 0 ? 2 : (r > 0 ? 1 : 0)); break; }
